@@ -736,6 +736,9 @@ class Ev(core.Evidence):
 
 
 def run(tier):
+    global CALL_TIMEOUT
+    if tier == "quick":
+        CALL_TIMEOUT = 12.0     # a call of the quick lattice takes milliseconds; a deviant rate or step list that integrates for minutes is "not completed"
     ev = Ev(PROP, tier)
     findings = core.Findings(PROP)
     ev.assumptions = [
